@@ -285,6 +285,13 @@ class G:
         vals = [[self.draw(st.sampled_from([0, 1, 2, -1, 0.5, 3])) for _ in range(c)] for _ in range(r)]
         if not symmetric and r > 1 and self.draw(st.integers(0, 3)) == 0:
             vals[self.draw(st.integers(0, r - 1))] = [0] * c   # an all-zero row (its column usually is not zero)
+        if r > 1 and r == c and self.draw(st.integers(0, 9)) == 0:
+            # a nearly diagonal matrix: every off-diagonal entry tiny (<= 1e-8) but not zero, small or zero diagonal -
+            # legal data that an approximate "is it diagonal / is it zero" test would misjudge
+            for i in range(r):
+                for j in range(c):
+                    vals[i][j] = (self.draw(st.sampled_from([0, 0, 1, 0.5, 1e-3])) if i == j
+                                  else self.draw(st.sampled_from([1e-8, -1e-8, 5e-9, 1e-8, 0])))
         if symmetric:
             for i in range(r):
                 for j in range(i):
@@ -748,3 +755,124 @@ def wide(draw):
     order = [f"x[{i}]" for i in range(n)]
     pts = [{nm: draw(st.sampled_from([1.0, -1.0, 1.5, 0.5, -2.0, 0.25])) for nm in order} for _ in range(2)]
     return env, recipe, order, pts
+
+
+@st.composite
+def wide_vec(draw, sizes=(64, 65, 70, 100)):
+    """(env, recipe, order, points): vector-structured reductions (c @ x, x.dot(y), x'Qx, norms, power / function sums) over
+    vectors of 64-100 elements, whole / reversed / copied views, against variable lists in which the vector's block is
+    natural, reversed, rotated, interleaved with a second vector or fully permuted - the sizes and layouts at which size-gated
+    gather / slice shortcuts start"""
+    n = draw(st.sampled_from(list(sizes)))
+    env = {"scalars": [{"name": "s"}], "vectors": [{"name": "x", "n": n}, {"name": "y", "n": n}], "matrices": [], "params": []}
+    X, Y = ["vvar", "x"], ["vvar", "y"]
+
+    def view(base):
+        k = draw(st.sampled_from(["whole", "whole", "rev", "copy"]))
+        return base if k == "whole" else ["slice", base, None, None, -1 if k == "rev" else None]
+    pool = [1.0, -2.0, 0.5, 3.0, -1.5, 0.25, 2.0, -0.75, 4.0]
+
+    def coeffs():
+        a, b = draw(st.integers(1, 7)), draw(st.integers(0, 8))
+        return [pool[(a * i + b + (i * i) // 7) % len(pool)] for i in range(n)]
+
+    def term():
+        kind = draw(st.sampled_from(["lincomb", "lincomb", "dot", "dotxx", "quad", "norm", "vsumpow", "vsumfn", "vsum", "vsumprod"]))
+        if kind == "lincomb":
+            return ["lincomb", coeffs(), view(X), draw(st.sampled_from(["c@x", "x@c", "LinearCombination"]))]
+        if kind == "dot":
+            return ["dot", view(X), view(Y), draw(st.sampled_from(["dot", "matmul"]))]
+        if kind == "dotxx":
+            return ["dot", view(X), ["slice", X, None, None, -1], "dot"]
+        if kind == "quad":
+            d = coeffs()
+            Q = [[0.0] * n for _ in range(n)]
+            for i in range(n):
+                Q[i][i] = d[i]
+            for _ in range(draw(st.integers(0, 3))):
+                i, j = draw(st.integers(0, n - 1)), draw(st.integers(0, n - 1))
+                Q[i][j] += draw(st.sampled_from([1.0, -0.5, 2.0]))
+            return ["quad", view(X), Q, draw(st.sampled_from(["quadratic_form", "QuadraticForm", "dot_matmul_fn"]))]
+        if kind == "norm":
+            return ["norm", view(X), draw(st.sampled_from([1, 2])), "function"]
+        if kind == "vsumpow":
+            return ["vsum", ["vpow", view(X), draw(st.sampled_from([2, 3]))]]
+        if kind == "vsumfn":
+            return ["vsum", ["vfn", draw(st.sampled_from(["sin", "exp", "tanh"])), view(X)]]
+        if kind == "vsumprod":
+            return ["vsum", ["vbin", "*", view(X), ["V", view(Y)], "right"]]
+        return ["vsum", view(X)]
+    recipe = term()
+    for _ in range(draw(st.integers(0, 2))):
+        recipe = ["bin", draw(st.sampled_from(["+", "-"])), recipe, term()]
+    if draw(st.integers(0, 3)) == 0:
+        recipe = ["bin", "*", ["var", "s"], recipe]
+    xs, ys = [f"x[{i}]" for i in range(n)], [f"y[{i}]" for i in range(n)]
+    layout = draw(st.sampled_from(["natural", "xrev", "xrot", "yfirst", "interleaved", "perm", "allrev"]))
+    if layout == "natural":
+        order = xs + ys + ["s"]
+    elif layout == "xrev":
+        order = xs[::-1] + ["s"] + ys
+    elif layout == "xrot":
+        k = draw(st.integers(1, n - 1))
+        order = ["s"] + xs[k:] + xs[:k] + ys
+    elif layout == "yfirst":
+        order = ys + xs + ["s"]
+    elif layout == "interleaved":
+        order = [nm for pair in zip(xs, ys) for nm in pair] + ["s"]
+    elif layout == "allrev":
+        order = (xs + ys + ["s"])[::-1]
+    else:
+        order = list(draw(st.permutations(xs + ys + ["s"])))
+    vals = [1.0, -1.0, 1.5, 0.5, -2.0, 0.25, 0.75, -0.5]
+    pts = []
+    for _ in range(2):
+        a, b = draw(st.integers(1, 7)), draw(st.integers(0, 7))
+        pt = {nm: vals[(a * i + b + (i * i) // 5) % len(vals)] for i, nm in enumerate(xs + ys)}
+        pt["s"] = draw(st.sampled_from([1.5, -2.0, 0.5]))
+        pts.append(pt)
+    return env, recipe, order, pts, layout
+
+
+def _slice_name_size(m, a, b, s):
+    idx = list(range(m))[slice(a, b, s)]
+    return (a or 0, b or m, len(idx)), idx
+
+
+def sibling_views(recipe, env, salt=0):
+    """(env', recipe') in which every slice of a vector variable is replaced by a DIFFERENT slice with the same derived name
+    (optyx names a slice '<name>[<start or 0>:<stop or size>]', whatever the step) and the same size - an earlier model whose
+    views are name-equal to the judged one's.  None when no slice has such a sibling."""
+    import copy
+    env2, rec2 = copy.deepcopy(env), copy.deepcopy(recipe)
+    changed = [0]
+
+    def fix(node):
+        if not isinstance(node, list):
+            return
+        for c in node:
+            fix(c)
+        if len(node) == 5 and node[0] == "slice" and isinstance(node[1], list) and node[1][:1] == ["vvar"]:
+            try:
+                m = next(v["n"] for v in env["vectors"] if v["name"] == node[1][1])
+                key, idx = _slice_name_size(m, node[2], node[3], node[4])
+            except Exception:
+                return
+            cands = []
+            for a in {node[2], key[0], (None if key[0] == 0 else key[0])}:
+                for b in {node[3], key[1], (None if key[1] == m else key[1])}:
+                    for s in (None, -1, 2, 3, -2, 1):
+                        try:
+                            k2, i2 = _slice_name_size(m, a, b, s)
+                        except Exception:
+                            continue
+                        if k2 == key and i2 != idx and i2:
+                            cands.append((a, b, s))
+            if cands:
+                cands.sort(key=repr)
+                node[2], node[3], node[4] = cands[salt % len(cands)]
+                changed[0] += 1
+    fix(rec2)
+    for k in list((env2.get("views") or {})):
+        fix(env2["views"][k])
+    return (env2, rec2) if changed[0] else None
